@@ -21,14 +21,16 @@ type CV struct {
 
 // CEnv evaluates contract expressions to SMT terms.
 type CEnv struct {
-	ft   *FT
-	vars map[string]*CV
-	cur  State
-	old  State
-	body *Body
-	pkg  *types.Package // package whose scope resolves bare identifiers
-	nq   int
-	at   *ssa.BasicBlock // program point (for resolving local names)
+	ft       *FT
+	vars     map[string]*CV
+	cur      State
+	old      State
+	body     *Body
+	pkg      *types.Package // package whose scope resolves bare identifiers
+	nq       int
+	at       *ssa.BasicBlock // program point (for resolving local names)
+	phiNames []string        // source names of loop-carried variables bound in vars
+	noRename bool            // (internal) do not try the renamed-local fallback
 }
 
 func (ft *FT) fnEnv(b *Body, st State) *CEnv {
@@ -204,6 +206,11 @@ func (e *CEnv) nilOf(sort string) *T {
 func (e *CEnv) ident(name string) *CV {
 	ft := e.ft
 	if v, ok := e.vars[name]; ok {
+		for _, pn := range e.phiNames {
+			if pn == name {
+				ft.noteLocalName(name, v.Type)
+			}
+		}
 		return v
 	}
 	if gs, ok := ft.e.prelude.Ghosts[name]; ok {
@@ -217,9 +224,11 @@ func (e *CEnv) ident(name string) *CV {
 	// register the debug info maps the source name to
 	if e.body != nil {
 		if cv := e.allocVar(name); cv != nil {
+			ft.noteLocalName(name, cv.Type)
 			return cv
 		}
 		if cv := e.debugVar(name); cv != nil {
+			ft.noteLocalName(name, cv.Type)
 			return cv
 		}
 	}
@@ -237,8 +246,87 @@ func (e *CEnv) ident(name string) *CV {
 	if p := ft.e.pkgByName[name]; p != nil {
 		return &CV{Pkg: p, Sort: "Pkg"}
 	}
+	// a local the contract names may have been renamed: the committed name table
+	// (contracts/names.json, types of the contract's locals on the unchanged tree)
+	// says which type it had; if exactly one local of that type is new to the
+	// contract's vocabulary, the clause is read with it
+	if cv := e.renamedLocal(name); cv != nil {
+		return cv
+	}
 	e.fail("unknown identifier %q", name)
 	return nil
+}
+
+func (e *CEnv) renamedLocal(name string) *CV {
+	ft := e.ft
+	if e.body == nil || ft.fn == nil || ft.e.names == nil || e.noRename {
+		return nil
+	}
+	table := ft.e.names[ft.fn.String()]
+	want := table[name]
+	if want == "" {
+		return nil
+	}
+	cands := map[string]bool{}
+	add := func(n string, t types.Type) {
+		if n == "" || n == "_" || table[n] != "" || t == nil {
+			return
+		}
+		if types.TypeString(t, nil) == want {
+			cands[n] = true
+		}
+	}
+	fns := []*ssa.Function{e.body.fn}
+	if e.body.fn != ft.fn {
+		fns = append(fns, ft.fn)
+	}
+	for _, fn := range fns {
+		for _, blk := range fn.Blocks {
+			for _, in := range blk.Instrs {
+				switch x := in.(type) {
+				case *ssa.DebugRef:
+					if x.Object() != nil && !x.IsAddr {
+						if _, isVar := x.Object().(*types.Var); isVar {
+							add(x.Object().Name(), x.Object().Type())
+						}
+					}
+				case *ssa.Alloc:
+					if p, ok := types.Unalias(x.Type()).Underlying().(*types.Pointer); ok {
+						add(x.Comment, p.Elem())
+					}
+				case *ssa.Phi:
+					add(x.Comment, x.Type())
+				}
+			}
+		}
+		for _, p := range fn.Params {
+			delete(cands, p.Name())
+		}
+	}
+	if len(cands) != 1 {
+		return nil
+	}
+	var y string
+	for k := range cands {
+		y = k
+	}
+	sub := *e
+	sub.noRename = true
+	var cv *CV
+	func() {
+		defer func() {
+			if r := recover(); r != nil {
+				if _, isC := r.(cerr); !isC {
+					panic(r)
+				}
+			}
+		}()
+		cv = sub.ident(y)
+	}()
+	if cv != nil {
+		ft.abstraction("contract identifier " + name + " read as the local " + y + " (renamed; same type " + want + ")")
+	}
+	return cv
 }
 
 func (e *CEnv) allocVar(name string) *CV {
